@@ -29,6 +29,8 @@
 (* completed), `res` / `out` (what it completed with) against `ans` and    *)
 (* `emitted` (what the servers really answered for that very call).        *)
 (*                                                                         *)
+(* `sent` counts how often the request of a call reached a server.         *)
+(*                                                                         *)
 (* Rule toggles (all FALSE = the client as it is after the repairs) are    *)
 (* the mutants of DESIGN 2.1; two of them are the pre-repair behaviour.    *)
 (***************************************************************************)
@@ -39,6 +41,8 @@ CONSTANTS MapReversed,        \* responses handed to the callbacks in reverse or
           DropOverflow,       \* the call that does not fit the byte limit is dropped
           MergeBytewise,      \* the merge heap compares keys bytewise
           DoubleErrSends,     \* pre-repair doMultiShardGet: counter = 0; counter-- after an error
+          KeepPartial,        \* responses streamed by a failed read attempt stay in the container the retry fills
+          ResendWrites,       \* a write whose stream broke after the request was sent is sent again
           ScanOpenErrNoClose  \* pre-repair rangeScanFromShard: no close when the stream cannot be opened
 
 VARIABLES cfg,      \* [n, maxReq, maxBytes, linger, dead] - client options and cluster of this run
@@ -48,6 +52,8 @@ VARIABLES cfg,      \* [n, maxReq, maxBytes, linger, dead] - client options and 
           agg,      \* fan-out aggregation state of a batched call: [cnt, sel]
           done,     \* how many times call c completed (callback / close of its channel)
           res,      \* the result call c completed with (batched calls)
+          sent,     \* sent[c][s]: how often the request of call c was handed to the server of shard s (history)
+          part,     \* [shard -> [w, r]]: responses streamed by failed attempts of the in-flight request
           sst,      \* server side of the list / scan stream of call c on shard s
           emitted,  \* keys the server sent on that stream (history)
           wire,     \* sent by the server, not yet forwarded by the client's per-shard goroutine
@@ -56,8 +62,8 @@ VARIABLES cfg,      \* [n, maxReq, maxBytes, linger, dead] - client options and 
           mrg,      \* merge goroutine of a multi-shard scan: [ph, i, heap]
           out       \* what was delivered on the result channel of a list / scan call
 
-vars == <<cfg, calls, q, cur, fly, ans, agg, done, res, sst, emitted, wire, chn, gcl, fin, mrg, out>>
-batchVars  == <<q, cur, fly, ans, agg, res>>
+vars == <<cfg, calls, q, cur, fly, ans, agg, done, res, sent, part, sst, emitted, wire, chn, gcl, fin, mrg, out>>
+batchVars  == <<q, cur, fly, ans, agg, res, sent, part>>
 streamVars == <<sst, emitted, wire, chn, gcl, fin, mrg, out>>
 
 Shards == 1..cfg.n
@@ -137,7 +143,8 @@ ServerAnswer(c, s) ==
 
 Init(c0) ==
     /\ cfg = c0
-    /\ calls = <<>> /\ ans = <<>> /\ agg = <<>> /\ done = <<>> /\ res = <<>>
+    /\ calls = <<>> /\ ans = <<>> /\ agg = <<>> /\ done = <<>> /\ res = <<>> /\ sent = <<>>
+    /\ part = [s \in 1..c0.n |-> [w |-> <<>>, r |-> <<>>]]
     /\ q   = [s \in 1..c0.n |-> [w |-> <<>>, r |-> <<>>]]
     /\ cur = [s \in 1..c0.n |-> [w |-> <<>>, r |-> <<>>]]
     /\ fly = [s \in 1..c0.n |-> [w |-> <<>>, r |-> <<>>]]
@@ -147,7 +154,8 @@ Init(c0) ==
 \* a fresh client on a fresh cluster (next-state form; trace validation concatenates many runs)
 Reinit(c0) ==
     /\ cfg' = c0
-    /\ calls' = <<>> /\ ans' = <<>> /\ agg' = <<>> /\ done' = <<>> /\ res' = <<>>
+    /\ calls' = <<>> /\ ans' = <<>> /\ agg' = <<>> /\ done' = <<>> /\ res' = <<>> /\ sent' = <<>>
+    /\ part' = [s \in 1..c0.n |-> [w |-> <<>>, r |-> <<>>]]
     /\ q'   = [s \in 1..c0.n |-> [w |-> <<>>, r |-> <<>>]]
     /\ cur' = [s \in 1..c0.n |-> [w |-> <<>>, r |-> <<>>]]
     /\ fly' = [s \in 1..c0.n |-> [w |-> <<>>, r |-> <<>>]]
@@ -173,6 +181,7 @@ Issue(t) ==
     /\ agg'  = Append(agg, [cnt |-> Cardinality(T), sel |-> IF t.op = "get" THEN NotFound ELSE OkAns])
     /\ done' = Append(done, 0)
     /\ res'  = Append(res, NoAns)
+    /\ sent' = Append(sent, [s \in Shards |-> 0])
     /\ sst'  = Append(sst, [s \in Shards |-> IF ~IsStream(t) \/ s \notin T THEN "na"
                                              ELSE IF openErr(s) THEN "openerr" ELSE "open"])
     /\ emitted' = Append(emitted, [s \in Shards |-> <<>>])
@@ -184,7 +193,7 @@ Issue(t) ==
     /\ fin' = Append(fin, {})
     /\ mrg' = Append(mrg, [ph |-> IF t.op = "scan" /\ Fanout(t) THEN "prime" ELSE "na", i |-> 1, heap |-> {}])
     /\ out' = Append(out, <<>>)
-    /\ UNCHANGED <<cfg, cur, fly>>
+    /\ UNCHANGED <<cfg, cur, fly, part>>
 
 (***************************************************************************)
 (* Batcher loop (oxia/batch/batcher.go:Run)                                *)
@@ -192,6 +201,9 @@ Issue(t) ==
 RECURSIVE Bytes(_)
 Bytes(b) == IF b = <<>> THEN 0 ELSE calls[Head(b)].size + Bytes(Tail(b))
 CanAdd(k, b, c) == k = "r" \/ Bytes(b) + calls[c].size <= cfg.maxBytes
+
+\* the request built from batch b is handed to the server of shard s (once more)
+Handed(s, b) == [c \in DOMAIN sent |-> IF c \in Range(b) THEN [sent[c] EXCEPT ![s] = @ + 1] ELSE sent[c]]
 
 TakeEn(s, k) == fly[s][k] = <<>> /\ q[s][k] # <<>>
 Take(s, k) ==
@@ -202,20 +214,22 @@ Take(s, k) ==
           THEN \* completeBatch(): the open batch goes out; the call joins a fresh batch afterwards
                /\ fly' = [fly EXCEPT ![s][k] = b]
                /\ cur' = [cur EXCEPT ![s][k] = <<>>]
+               /\ sent' = Handed(s, b)
                /\ q' = IF DropOverflow THEN [q EXCEPT ![s][k] = Tail(@)] ELSE q
           ELSE LET nb == Append(b, c) IN
                /\ q' = [q EXCEPT ![s][k] = Tail(@)]
                /\ IF Len(nb) = cfg.maxReq \/ ~cfg.linger
-                  THEN fly' = [fly EXCEPT ![s][k] = nb] /\ cur' = [cur EXCEPT ![s][k] = <<>>]
-                  ELSE cur' = [cur EXCEPT ![s][k] = nb] /\ UNCHANGED fly
-    /\ UNCHANGED <<cfg, calls, ans, agg, done, res>> /\ UNCHANGED streamVars
+                  THEN fly' = [fly EXCEPT ![s][k] = nb] /\ cur' = [cur EXCEPT ![s][k] = <<>>] /\ sent' = Handed(s, nb)
+                  ELSE cur' = [cur EXCEPT ![s][k] = nb] /\ UNCHANGED <<fly, sent>>
+    /\ UNCHANGED <<cfg, calls, ans, agg, done, res, part>> /\ UNCHANGED streamVars
 
 TimerEn(s, k) == cfg.linger /\ cur[s][k] # <<>> /\ fly[s][k] = <<>>
 Timer(s, k) ==
     /\ TimerEn(s, k)
     /\ fly' = [fly EXCEPT ![s][k] = cur[s][k]]
     /\ cur' = [cur EXCEPT ![s][k] = <<>>]
-    /\ UNCHANGED <<cfg, calls, q, ans, agg, done, res>> /\ UNCHANGED streamVars
+    /\ sent' = Handed(s, cur[s][k])
+    /\ UNCHANGED <<cfg, calls, q, ans, agg, done, res, part>> /\ UNCHANGED streamVars
 
 \* all linger timers that are running expire (real time is global: used by the replay generator)
 TimerAllEn == \E s \in Shards, k \in Kinds : TimerEn(s, k)
@@ -223,7 +237,9 @@ TimerAll ==
     /\ TimerAllEn
     /\ fly' = [s \in Shards |-> [k \in Kinds |-> IF TimerEn(s, k) THEN cur[s][k] ELSE fly[s][k]]]
     /\ cur' = [s \in Shards |-> [k \in Kinds |-> IF TimerEn(s, k) THEN <<>> ELSE cur[s][k]]]
-    /\ UNCHANGED <<cfg, calls, q, ans, agg, done, res>> /\ UNCHANGED streamVars
+    /\ sent' = [c \in DOMAIN sent |-> [s \in Shards |->
+                    IF \E k \in Kinds : TimerEn(s, k) /\ c \in Range(cur[s][k]) THEN sent[c][s] + 1 ELSE sent[c][s]]]
+    /\ UNCHANGED <<cfg, calls, q, ans, agg, done, res, part>> /\ UNCHANGED streamVars
 
 (***************************************************************************)
 (* Callbacks.  Upd(c, s, a) = effect of invoking the callback of the       *)
@@ -266,17 +282,20 @@ Respond(s, k) ==
     /\ LET B == fly[s][k]
            \* the server answers request i of each list of the wire request with response i; the
            \* client hands response j to callback j of the same list
+           \* (whatever an earlier, failed attempt left in the response container comes first)
            Given(c) == LET l == TypeList(B, calls[c].op)
                            i == PosIn(l, c)
                            j == IF MapReversed THEN Len(l) + 1 - i ELSE i
-                       IN ServerAnswer(l[j], s)
+                           R == (IF KeepPartial THEN part[s][k] ELSE <<>>) \o [x \in 1..Len(l) |-> ServerAnswer(l[x], s)]
+                       IN R[j]
        IN /\ Deliver(Range(B), s, Given)
           /\ ans' = [c \in DOMAIN ans |-> IF c \in Range(B) THEN [ans[c] EXCEPT ![s] = ServerAnswer(c, s)] ELSE ans[c]]
     /\ fly' = [fly EXCEPT ![s][k] = <<>>]
-    /\ UNCHANGED <<cfg, calls, q, cur>> /\ UNCHANGED streamVars
+    /\ part' = [part EXCEPT ![s][k] = <<>>]
+    /\ UNCHANGED <<cfg, calls, q, cur, sent>> /\ UNCHANGED streamVars
 
-Fail(s, k) ==
-    /\ fly[s][k] # <<>>
+\* every callback of the in-flight batch gets the error (write_batch.go / read_batch.go: Fail)
+FailBatch(s, k) ==
     /\ LET B == fly[s][k]
            spill == IF FailSpills /\ q[s][k] # <<>> THEN {Head(q[s][k])} ELSE {}
            Given(c) == ErrAns
@@ -284,7 +303,34 @@ Fail(s, k) ==
           /\ ans' = [c \in DOMAIN ans |-> IF c \in Range(B) THEN [ans[c] EXCEPT ![s] = ErrAns] ELSE ans[c]]
           /\ q' = IF spill # {} THEN [q EXCEPT ![s][k] = Tail(@)] ELSE q
     /\ fly' = [fly EXCEPT ![s][k] = <<>>]
-    /\ UNCHANGED <<cfg, calls, cur>> /\ UNCHANGED streamVars
+    /\ part' = [part EXCEPT ![s][k] = <<>>]
+    /\ UNCHANGED <<cfg, calls, cur, sent>> /\ UNCHANGED streamVars
+
+\* the attempt ends with an error the retry policy does not retry (rpc_errors.go: isRetriable)
+Fail(s, k) == fly[s][k] # <<>> /\ FailBatch(s, k)
+
+(***************************************************************************)
+(* The attempt ends with a RETRIABLE error (Unavailable, not-leader, ...)  *)
+(* after the server has received the request and streamed the first n      *)
+(* responses (reads stream their responses in chunks; a write has a single *)
+(* response, n = 0).                                                       *)
+(*  - read batch: doRequestWithRetries sends the whole request again (after *)
+(*    a backoff) and fills a fresh response container;                     *)
+(*  - write batch: the outcome of the request is unknown (the leader may    *)
+(*    have applied it), so it must not be sent a second time: the write     *)
+(*    stream fails its pending requests with io.EOF, which is not retried,  *)
+(*    and the calls complete with the error.                                *)
+(***************************************************************************)
+Break(s, k, n) ==
+    /\ fly[s][k] # <<>>
+    /\ n \in 0..(IF k = "r" THEN Len(fly[s][k]) ELSE 0)
+    /\ IF k = "r" \/ ResendWrites
+       THEN LET B == fly[s][k] IN
+            /\ sent' = Handed(s, B)
+            \* what the failed attempt streamed (remembered as history; only the KeepPartial client uses it)
+            /\ part' = [part EXCEPT ![s][k] = @ \o [x \in 1..n |-> ServerAnswer(B[x], s)]]
+            /\ UNCHANGED <<cfg, calls, q, cur, fly, ans, agg, done, res>> /\ UNCHANGED streamVars
+       ELSE FailBatch(s, k)
 
 (***************************************************************************)
 (* List / range-scan streams                                               *)
@@ -408,6 +454,10 @@ CorrectBatched(c) ==
                               /\ \A a \in F : IF Floorish(t) THEN SlashCmp(a.key, r.key) <= 0
                                               ELSE SlashCmp(a.key, r.key) >= 0
 OwnResult == \A c \in CallIds : (~IsStream(calls[c]) /\ done[c] >= 1) => CorrectBatched(c)
+
+\* seen from the servers: the request of a write is handed to a server at most once (a write whose
+\* outcome is unknown is never silently repeated); reads may be repeated
+WriteSentOnce == \A c \in CallIds : KindOf(calls[c]) = "w" => \A s \in Shards : sent[c][s] <= 1
 
 \* list / scan: the delivered items
 OutKeys(c)  == {out[c][i] : i \in {j \in 1..Len(out[c]) : out[c][j] # ERR}}
